@@ -313,6 +313,10 @@ pub struct Ctx<'a> {
     pub probes: BTreeSet<usize>,
     pub alterations: u64,
     pub step: usize,
+    /// C16 L1: fail the k-th storage write/flush of the run (transient or from then on)
+    pub fault: Option<(u64, bool)>,
+    /// what happened to the armed fault: "" (not armed), "not_reached", "fired:<kind>"
+    pub fault_outcome: String,
 }
 
 impl<'a> Ctx<'a> {
@@ -327,6 +331,8 @@ impl<'a> Ctx<'a> {
             probes: BTreeSet::new(),
             alterations: 0,
             step: 0,
+            fault: None,
+            fault_outcome: String::new(),
         }
     }
 }
@@ -540,9 +546,6 @@ impl Node {
                     rep(t.close_db_connection())?;
                 }
                 drop(t);
-                wait_unlocked(&path);
-                let cfg: PmtreeConfig = store.tree_config(&path).parse().map_err(|e: color_eyre::Report| e.to_string())?;
-                self.sut = Sut::Pm(rep_t(PmTree::new(depth, Fr::from(0u64), cfg))?);
             }
             #[cfg(not(feature = "stateless"))]
             Sut::Rln(mut r) => {
@@ -550,13 +553,22 @@ impl Node {
                     rep(r.flush())?;
                 }
                 drop(r);
-                wait_unlocked(&path);
+            }
+            _ => {}
+        }
+        wait_unlocked(&path);
+        if self.kind.starts_with("rln") {
+            #[cfg(not(feature = "stateless"))]
+            {
                 let cfg = format!("{{\"tree_config\": {}}}", store.tree_config(&path));
                 let r = rln::public::RLN::new(depth, Cursor::new(cfg)).map_err(|e| e.to_string())?;
                 self.sut = Sut::Rln(Box::new(r));
             }
-            other => {
-                self.sut = other;
+        } else {
+            #[cfg(feature = "pm")]
+            {
+                let cfg: PmtreeConfig = store.tree_config(&path).parse().map_err(|e: color_eyre::Report| e.to_string())?;
+                self.sut = Sut::Pm(rep_t(PmTree::new(depth, Fr::from(0u64), cfg))?);
             }
         }
         self.reopened = true;
@@ -595,7 +607,7 @@ impl Node {
         Ok(())
     }
 
-    fn prim(&mut self, op: Op) -> Result<(), String> {
+    pub fn prim(&mut self, op: Op) -> Result<(), String> {
         let st = Step::plain(op);
         let known = HashSet::new();
         let p = std::path::PathBuf::from("/nonexistent");
@@ -603,11 +615,63 @@ impl Node {
         let sc = StoreCfg::default_cfg();
         guarded(|| self.apply(&st, &ReadPlan::clean(), &sc, &mut c)).map_err(|p| format!("panic: {p}"))?
     }
-    fn prim_set(&mut self, i: usize, v: Fr) -> Result<(), String> {
+    pub fn prim_set(&mut self, i: usize, v: Fr) -> Result<(), String> {
         self.prim(Op::Set { i, v })
     }
-    fn prim_delete(&mut self, i: usize) -> Result<(), String> {
+    pub fn prim_delete(&mut self, i: usize) -> Result<(), String> {
         self.prim(Op::Delete { i })
+    }
+
+    pub fn read_leaf(&self, i: usize) -> Result<Fr, String> {
+        match &self.sut {
+            Sut::Full(t) => rep_t(t.get(i)),
+            Sut::Opt(t) => rep_t(t.get(i)),
+            #[cfg(feature = "pm")]
+            Sut::Pm(t) => rep_t(t.get(i)),
+            #[cfg(not(feature = "stateless"))]
+            Sut::Rln(r) => {
+                let mut w = Vec::new();
+                r.get_leaf(i, &mut w).map_err(|e| e.to_string())?;
+                Ok(fr_from_le(&w))
+            }
+            Sut::Gone => Err("gone".into()),
+        }
+    }
+
+    pub fn read_root(&self) -> Result<Fr, String> {
+        match &self.sut {
+            Sut::Full(t) => Ok(t.root()),
+            Sut::Opt(t) => Ok(t.root()),
+            #[cfg(feature = "pm")]
+            Sut::Pm(t) => Ok(t.root()),
+            #[cfg(not(feature = "stateless"))]
+            Sut::Rln(r) => {
+                let mut w = Vec::new();
+                r.get_root(&mut w).map_err(|e| e.to_string())?;
+                Ok(fr_from_le(&w))
+            }
+            Sut::Gone => Err("gone".into()),
+        }
+    }
+
+    pub fn read_meta(&self) -> Result<Vec<u8>, String> {
+        match &self.sut {
+            Sut::Full(t) => rep_t(t.metadata()),
+            Sut::Opt(t) => rep_t(t.metadata()),
+            #[cfg(feature = "pm")]
+            Sut::Pm(t) => rep_t(t.metadata()),
+            #[cfg(not(feature = "stateless"))]
+            Sut::Rln(r) => {
+                let mut w = Vec::new();
+                r.get_metadata(&mut w).map_err(|e| e.to_string())?;
+                Ok(w)
+            }
+            Sut::Gone => Err("gone".into()),
+        }
+    }
+
+    pub fn is_gone(&self) -> bool {
+        matches!(self.sut, Sut::Gone)
     }
 
     pub fn observed_hwm(&mut self) -> usize {
@@ -972,7 +1036,7 @@ fn empties_rln(r: &rln::public::RLN, wplan: &WritePlan, ctx: &mut Ctx) -> Result
 
 /// Evaluates the clauses of the active property on one node. `Err(panic message)` = a getter
 /// panicked.
-fn evaluate(node: &mut Node, step: &Step, ctx: &mut Ctx) -> Result<Option<Mismatch>, String> {
+pub fn evaluate(node: &mut Node, step: &Step, ctx: &mut Ctx) -> Result<Option<Mismatch>, String> {
     let probes = probe_positions(&node.model, &ctx.probes);
     let prop = ctx.prop.to_string();
     // the state clauses are always evaluated first: the proof / empty-list clauses are only
@@ -1218,8 +1282,20 @@ pub fn run_trace(trace: &Trace, ctx: &mut Ctx) -> RunOutcome {
 
 fn run_trace_inner(trace: &Trace, ctx: &mut Ctx, run_dir: &std::path::Path) -> RunOutcome {
     let mut nodes: Vec<Node> = Vec::new();
+    if let Some((k, sticky)) = ctx.fault {
+        if sticky {
+            zerokit_utils::verif::arm(&[], Some(k), None);
+        } else {
+            zerokit_utils::verif::arm(&[k], None, None);
+        }
+        ctx.fault_outcome = "not_reached".to_string();
+    }
     for k in &trace.nodes {
-        match guarded(|| Node::create(k, trace.depth, &trace.store, run_dir)) {
+        let created = guarded(|| Node::create(k, trace.depth, &trace.store, run_dir));
+        if ctx.fault.is_some() && zerokit_utils::verif::write_counters().1 > 0 {
+            return storage_fault_during_create(k, created, trace, ctx, run_dir);
+        }
+        match created {
             Ok(Ok(n)) => nodes.push(n),
             Ok(Err(e)) => return herr(format!("create {k}: {e}")),
             Err(p) => return herr(format!("create {k} panicked: {p}")),
@@ -1348,6 +1424,16 @@ fn run_trace_inner(trace: &Trace, ctx: &mut Ctx, run_dir: &std::path::Path) -> R
                     guarded(|| node.apply(step, &plan, &trace.store, ctx))
                 }
             };
+            if ctx.fault.is_some() && zerokit_utils::verif::write_counters().1 > 0 {
+                // the injected storage failure happened inside this call
+                let mut cands = vec![pre.clone()];
+                match expect {
+                    Expect::Applied => cands.push(node.model.clone()),
+                    Expect::Rejected => {}
+                    Expect::Either(alt) => cands.push(*alt),
+                }
+                return storage_fault_during_op(node, cands, res, step, si, trace, ctx);
+            }
             ctx.log.add_u64(si as u64);
             ctx.log.add(kind.as_bytes());
             let returned_ok = match &res {
@@ -1449,6 +1535,159 @@ fn run_trace_inner(trace: &Trace, ctx: &mut Ctx, run_dir: &std::path::Path) -> R
         }
     }
     drop(nodes);
+    if ctx.fault.is_some() {
+        zerokit_utils::verif::disarm();
+    }
+    RunOutcome { violation: None, harness_error: None }
+}
+
+// ------------------------------------------------------------------------------------------------
+// C16, layer L1: what must hold when a storage write / flush fails inside an operation
+// ------------------------------------------------------------------------------------------------
+
+fn fired_kind() -> String {
+    let (_seen, _fired, log) = zerokit_utils::verif::disarm();
+    for (_k, op, failed) in log {
+        if failed {
+            return format!("{:?}", op).to_lowercase();
+        }
+    }
+    "unknown".to_string()
+}
+
+fn storage_fault_during_create(
+    kind: &str,
+    created: Result<Result<Node, String>, String>,
+    trace: &Trace,
+    ctx: &mut Ctx,
+    run_dir: &std::path::Path,
+) -> RunOutcome {
+    let fk = fired_kind();
+    ctx.fault_outcome = format!("fired:{fk}");
+    ctx.counters.inc(&format!("fault.storage_{fk}_failed"));
+    ctx.counters.inc("reach.failure_during_creation");
+    let op = Op::Reopen { flush: false };
+    let prop = ctx.prop.to_string();
+    match created {
+        Err(p) => return viol(&prop, kind, 0, &op, "create_panic_on_storage_failure", p),
+        Ok(Ok(n)) => {
+            drop(n);
+            return viol(&prop, kind, 0, &op, "create_storage_failure_not_reported", format!("creation returned Ok although storage write ({fk}) failed"));
+        }
+        Ok(Err(_)) => {}
+    }
+    // nothing was acknowledged; a later open must at least not crash, and must work
+    if let Some(p) = path_of(kind, run_dir) {
+        wait_unlocked(&p);
+    }
+    match guarded(|| Node::create(kind, trace.depth, &trace.store, run_dir)) {
+        Err(p) => viol(&prop, kind, 0, &op, "open_panic_after_failed_create", p),
+        Ok(Err(e)) => viol(&prop, kind, 0, &op, "open_failed_after_failed_create", e),
+        Ok(Ok(mut n)) => {
+            ctx.counters.inc("oracle_evaluations");
+            // liveness: the location is usable
+            if let Err(e) = n.prim_set(0, Fr::from(5u64)) {
+                return viol(&prop, kind, 0, &op, "unusable_after_failed_create", e);
+            }
+            RunOutcome { violation: None, harness_error: None }
+        }
+    }
+}
+
+fn path_of(kind: &str, run_dir: &std::path::Path) -> Option<std::path::PathBuf> {
+    match kind {
+        "pmp" => Some(run_dir.join("pmp")),
+        "rlnp" => Some(run_dir.join("rlnp")),
+        _ => None,
+    }
+}
+
+fn storage_fault_during_op(
+    node: &mut Node,
+    cands: Vec<IdealTree>,
+    res: Result<Result<(), String>, String>,
+    step: &Step,
+    si: usize,
+    trace: &Trace,
+    ctx: &mut Ctx,
+) -> RunOutcome {
+    let fk = fired_kind();
+    ctx.fault_outcome = format!("fired:{fk}");
+    ctx.counters.inc(&format!("fault.storage_{fk}_failed"));
+    ctx.counters.inc(&format!("reach.failure_during_{}", step.op.kind()));
+    let prop = ctx.prop.to_string();
+    let kind = node.kind.clone();
+    match res {
+        Err(p) => return viol(&prop, &kind, si, &step.op, "panic_on_storage_failure", p),
+        Ok(Ok(())) => {
+            return viol(&prop, &kind, si, &step.op, "storage_failure_not_reported",
+                format!("the call returned Ok although a storage write ({fk}) failed during it"));
+        }
+        Ok(Err(_)) => {}
+    }
+    let pre = cands[0].clone();
+    // faults have stopped: flush, drop, reopen
+    if !node.is_gone() {
+        match guarded(|| node.prim(Op::Flush)) {
+            Err(p) => return viol(&prop, &kind, si, &step.op, "flush_panic_after_faults_stopped", p),
+            Ok(Err(e)) => return viol(&prop, &kind, si, &step.op, "flush_failed_after_faults_stopped", e),
+            Ok(Ok(())) => {}
+        }
+    }
+    node.model = pre.clone();
+    match guarded(|| node.reopen(false, &trace.store)) {
+        Err(p) => return viol(&prop, &kind, si, &step.op, "reopen_panic_after_storage_failure", p),
+        Ok(Err(e)) => return viol(&prop, &kind, si, &step.op, "reopen_failed_after_storage_failure", e),
+        Ok(Ok(())) => {}
+    }
+    // every update acknowledged before the failed call is still there; positions the failed call
+    // touches hold their old or their new value
+    let positions: Vec<usize> = probe_positions(&pre, &ctx.probes);
+    for &i in &positions {
+        let got = match guarded(|| node.read_leaf(i)) {
+            Err(p) => return viol(&prop, &kind, si, &step.op, "read_panic_after_storage_failure", p),
+            Ok(Err(e)) => return viol(&prop, &kind, si, &step.op, "read_failed_after_storage_failure", e),
+            Ok(Ok(v)) => v,
+        };
+        if !cands.iter().any(|c| c.get(i) == got) {
+            let clause = if cands.iter().all(|c| c.get(i) == pre.get(i)) { "acknowledged_update_lost" } else { "garbage_in_touched_position" };
+            return viol(&prop, &kind, si, &step.op, clause,
+                format!("after failed {} and reopen, leaf {i} = {} but acknowledged value is {}", step.op.kind(), fr_to_json(&got), fr_to_json(&pre.get(i))));
+        }
+    }
+    let hwm = node.observed_hwm();
+    if !cands.iter().any(|c| c.hwm == hwm) {
+        return viol(&prop, &kind, si, &step.op, "leaf_count_lost", format!("leaves_set {} after reopen, acknowledged {}", hwm, pre.hwm));
+    }
+    match node.read_meta() {
+        Ok(m) => {
+            if !cands.iter().any(|c| c.metadata == m) {
+                return viol(&prop, &kind, si, &step.op, "metadata_lost", format!("metadata {} after reopen, acknowledged {}", hex(&m), hex(&pre.metadata)));
+            }
+        }
+        Err(e) => return viol(&prop, &kind, si, &step.op, "read_failed_after_storage_failure", e),
+    }
+    ctx.counters.inc("oracle_evaluations");
+    // bounded liveness once faults have stopped: the next operations and the next flush succeed
+    let cap = pre.cap();
+    for j in 0..5usize {
+        let i = (si + 3 * j) % cap;
+        let v = Fr::from(900_000 + (si * 7 + j) as u64);
+        match guarded(|| node.prim_set(i, v)) {
+            Err(p) => return viol(&prop, &kind, si, &step.op, "panic_after_faults_stopped", p),
+            Ok(Err(e)) => return viol(&prop, &kind, si, &step.op, "write_failed_after_faults_stopped", format!("set({i}) after recovery: {e}")),
+            Ok(Ok(())) => {}
+        }
+        match node.read_leaf(i) {
+            Ok(g) if g == v => {}
+            other => return viol(&prop, &kind, si, &step.op, "readback_after_faults_stopped", format!("set({i}) does not read back: {:?}", other.map(|x| fr_to_json(&x)))),
+        }
+    }
+    match guarded(|| node.prim(Op::Flush)) {
+        Ok(Ok(())) => {}
+        other => return viol(&prop, &kind, si, &step.op, "flush_failed_after_faults_stopped", format!("{:?}", other)),
+    }
+    ctx.counters.inc("reach.recovered_and_continued");
     RunOutcome { violation: None, harness_error: None }
 }
 
